@@ -38,15 +38,15 @@ func (m *Map[K, V]) Load(key K) (V, bool) {
 // LoadOrStore returns the existing value for the key if present. The loaded value is read-only and should not be modified.
 // Otherwise, it stores and returns the given value. The loaded result is true if the value was loaded, false if stored.
 func (m *Map[K, V]) LoadOrStore(key K, value V) (actual V, loaded bool) {
-	m.mutex.RLock()
+	// the lookup and the store must happen in one critical section, otherwise two concurrent calls
+	// for an absent key both store and both report loaded == false
+	m.mutex.Lock()
+	defer m.mutex.Unlock()
 	v, ok := m.data[key]
-	m.mutex.RUnlock()
 	if ok {
 		return v, true
 	}
-	m.mutex.Lock()
 	m.data[key] = value
-	m.mutex.Unlock()
 	return value, false
 }
 
